@@ -3,6 +3,7 @@ open AgdbStorage
 
 structure DrvState where
   wal : WalDrv := {}
+  st : StDrv := {}
 
 def step (st : DrvState) (line : String) : DrvState × String :=
   match line.trimAscii.toString.splitOn " " with
@@ -10,6 +11,9 @@ def step (st : DrvState) (line : String) : DrvState × String :=
   | "wal" :: rest =>
     let (w, o) := walStep st.wal rest
     ({ st with wal := w }, o)
+  | "st" :: rest =>
+    let (w, o) := stStep st.st rest
+    ({ st with st := w }, o)
   | _ => (st, "bad-op")
 
 partial def loop (h : IO.FS.Stream) (out : IO.FS.Stream) (st : DrvState) : IO Unit := do
